@@ -350,7 +350,7 @@ def check(pid, tier, seed):
     ok_lean, lean_log = build_lean(targets)
     # property theorems follow the naming convention cNN_* / t<stage>_* / build_*; other
     # theorems in a Props file are local helpers (audited transitively through their users)
-    PROP_NAME = re.compile(r"^(c\d\d_|tdom_|trun_|tsingle_|tnaive_|tpg_|build_|mem_|satOrFalse_)")
+    PROP_NAME = re.compile(r"^(c\d\d_|tdom_|trun_|tsingle_|tnaive_|tpg_|tparse_|trender_|build_|mem_|satOrFalse_)")
     thms = [t for t in (theorems_of(prop_file) if have_props else []) if PROP_NAME.match(t)]
     thms_q = [f"Pm.{t}" if not t.startswith("Pm.") else t for t in thms]
     for m, names in extra:
